@@ -13,6 +13,8 @@ from symx.core import Inconclusive, SBool, SInt, cur, fresh_int, is_sym, zb, zi
 from symx.harness import SNP, conn_from_cex, stubs_description, sym_connection_list
 from symx.snp import SArr
 
+from props import alias_common as _alias
+
 ID = "C17"
 COLORS = [WALL, OPEN, START, END, PATH]
 
@@ -410,6 +412,7 @@ def jobs(tier, seed):
     for o in (opts if not q else [(True, True, False), (False, True, True)]):
         for n_idx in (None, 1, 2, 3):
             out.append(dict(h="batch", n_idx=n_idx, opts=list(o)))
+    out.append(dict(_alias.ALIAS_JOB))  # results must not alias library state, arguments or each other (props/alias_common.py)
     out[0]["twin"] = True
     return out
 
@@ -432,6 +435,7 @@ HARNESSES = {
     "integration": dict(run=_run_integration, replay=_replay_integration, patch=_PATCH),
     "batch": dict(run=_run_batch, replay=_replay_batch, patch=_NOPATCH),
 }
+HARNESSES["alias"] = _alias.alias_harness("C17")
 
 META = dict(
     functions=["rasterized.process_maze_rasterized_input_target", "lattice_maze._remove_isolated_cells", "rasterized._extend_pixels",
@@ -451,3 +455,5 @@ META = dict(
              "from_config_augmented (goes through dataset generation and the cache)"],
     assumptions=["the picture handed to the rasterizer is what SolvedMaze.as_pixels(True, True) returns (checked separately by C10 and by the integration harness)"],
 )
+
+META.setdefault("degenerate", {})["alias"] = _alias.ALIAS_META
